@@ -73,6 +73,26 @@ struct ConcOutcome {
     sigs: Vec<String>,
 }
 
+type Job = Box<dyn FnOnce() + Send>;
+
+/// The process's long-lived producer thread (a harness thread for good).
+fn veteran() -> &'static std::sync::mpsc::Sender<Job> {
+    static V: std::sync::OnceLock<std::sync::mpsc::Sender<Job>> = std::sync::OnceLock::new();
+    V.get_or_init(|| {
+        let (tx, rx) = std::sync::mpsc::channel::<Job>();
+        std::thread::Builder::new()
+            .name("veteran-producer".into())
+            .spawn(move || {
+                procmon::register_current();
+                while let Ok(job) = rx.recv() {
+                    job();
+                }
+            })
+            .unwrap();
+        tx
+    })
+}
+
 fn run_conc(cfg: &ConcCfg, rng: &mut Rng, sid: u64) -> ConcOutcome {
     let sh = Shared::new(false);
     sh.st.lock().unwrap().sleep_us = cfg.sleep_us;
@@ -178,6 +198,7 @@ fn run_conc(cfg: &ConcCfg, rng: &mut Rng, sid: u64) -> ConcOutcome {
     let barrier = Arc::new(Barrier::new(cfg.producers));
     let shared_q = Arc::new(q.clone());
     let mut joins = Vec::new();
+    let mut veteran_result: Option<std::sync::mpsc::Receiver<Option<String>>> = None;
     for p in 0..cfg.producers {
         let handle: Option<QueuingMetricSink> = if cfg.shared_handle { None } else { Some(q.clone()) };
         let shq = shared_q.clone();
@@ -186,12 +207,13 @@ fn run_conc(cfg: &ConcCfg, rng: &mut Rng, sid: u64) -> ConcOutcome {
         let n = cfg.per_producer;
         let (p_err, p_panic) = (cfg.p_err, cfg.p_panic);
         let mut prng = rng.fork();
-        joins.push(
-            std::thread::Builder::new()
-                .name(format!("producer-{}", p))
-                .spawn(move || {
-                    let _reg = procmon::Registration::new();
-                    let tid = _reg.tid;
+        // producer 0 of every history runs on one long-lived thread of the process (a veteran next to the newcomers
+        // spawned for this history: per-thread state a library keeps - slots, stripes, caches keyed by thread - then
+        // belongs to threads of very different ages)
+        let on_veteran = p == 0;
+        let work = move || {
+                    let _reg = if on_veteran { None } else { Some(procmon::Registration::new()) };
+                    let tid = procmon::gettid();
                     bar.wait();
                     let mut panicked: Option<String> = None;
                     for k in 0..n {
@@ -228,12 +250,23 @@ fn run_conc(cfg: &ConcCfg, rng: &mut Rng, sid: u64) -> ConcOutcome {
                     }
                     drop(handle);
                     panicked
-                })
-                .unwrap(),
-        );
+        };
+        if on_veteran {
+            let (tx, rx) = std::sync::mpsc::channel::<Option<String>>();
+            veteran().send(Box::new(move || {
+                let _ = tx.send(work());
+            })).expect("veteran thread gone");
+            veteran_result = Some(rx);
+        } else {
+            joins.push(std::thread::Builder::new().name(format!("producer-{}", p)).spawn(work).unwrap());
+        }
     }
-    for j in joins {
-        if let Ok(Some(pm)) = j.join() {
+    let mut results: Vec<Option<String>> = joins.into_iter().map(|j| j.join().ok().flatten()).collect();
+    if let Some(rx) = veteran_result {
+        results.push(rx.recv().ok().flatten());
+    }
+    for r in results {
+        if let Some(pm) = r {
             viol.push(V { props: vec!["C10"], rule: "R5", class: "emit-panicked".into(), detail: format!("emit unwound into a producer thread: {}", pm) });
         }
     }
